@@ -14,11 +14,11 @@
     the model).
 
     The specification oracle ([Spec.sstep]) runs on the implementation's replies
-    only.  Known finding 1 is recognised from the case itself: the first reply
-    the oracle rejects is a read at a root on which an empty MemSet replaced a
-    pending tree (see [clobbers]) and that read returns nothing.  Known finding 2:
-    the first rejected reply is ErrHashNotFound to a Commit of the nil hash sent
-    through the queue. *)
+    only.  Known finding 2 is recognised from the case itself: the first rejected
+    reply is ErrHashNotFound to a Commit of the nil hash sent through the queue.
+    (Finding 1 - an empty MemSet replaced a pending tree by the marker - is fixed
+    in chain33; a read that returns nothing at an acknowledged root is a violation
+    like any other.) *)
 From Coq Require Import List ZArith NArith Bool.
 From C33 Require Import Lib.Harness C01.Keys C01.Model C01.Spec C01.Store C04.Model C04.Spec.
 Import ListNotations.
@@ -155,55 +155,31 @@ Definition to_sout (vals : list bytes) (io : iout) : sout :=
   | _ => SFail
   end.
 
-(** Known finding 1: an empty MemSet on a root whose pending tree is not in the database. *)
-Definition clobbers (s : st) (x : xroot) : bool :=
-  match p_get (s_pend s) x with
-  | Some (Some _) => match load_x s x with None => true | Some _ => false end
-  | _ => false
-  end.
-
-Definition all_nil (io : iout) : bool :=
-  match io with OVals vs => forallb (N.eqb 0%N) vs | _ => false end.
-
 Record acc := mk_acc {
-  a_st : st; a_env : env; a_sst : sst; a_clob : list xroot;
+  a_st : st; a_env : env; a_sst : sst;
   a_m : bool; a_s : bool; a_kf : N }.
 
-Definition acc0 (pfx : bool) : acc := mk_acc (st0 pfx) env0 sst0 [] true true 0%N.
+Definition acc0 (pfx : bool) : acc := mk_acc (st0 pfx) env0 sst0 true true 0%N.
 
 Definition seq_step (q : bool) (keys vals : list bytes) (a : acc) (b : iop * iout) : acc :=
   let strict := s_pfx (a_st a) in
   let '(o, io) := b in
   (* the specification first: it only needs the replies *)
   let '(ss', ok) := sstep strict (a_sst a) (to_sop keys vals o) (to_sout vals io) in
-  let hit := match o with
-             | IGet r => match a_get (a_env a) r with
-                         | Some x => existsb (xroot_eqb x) (a_clob a) && all_nil io
-                         | None => false
-                         end
-             | _ => false
-             end in
   (* finding 2: through the queue, an acknowledged-as-failed Commit of the nil hash that waits *)
   let hit2 := match o, io with
               | ICommit r, ONotFound =>
                   q && match a_get (a_env a) r with Some XNil => true | _ => false end
               | _, _ => false
               end in
-  let kf' := if a_s a && negb ok then (if hit then 1%N else if hit2 then 2%N else 0%N) else a_kf a in
+  let kf' := if a_s a && negb ok then (if hit2 then 2%N else 0%N) else a_kf a in
   let s_ok := a_s a && ok in
-  let clob' := match o with
-               | IMemSet p [] => match a_get (a_env a) p with
-                                 | Some x => if clobbers (a_st a) x then x :: a_clob a else a_clob a
-                                 | None => a_clob a
-                                 end
-               | _ => a_clob a
-               end in
   if a_m a then
     match magree q keys vals (a_env a) (a_st a) o io with
-    | Some (e', s') => mk_acc s' e' ss' clob' true s_ok kf'
-    | None => mk_acc (a_st a) (a_env a) ss' clob' false s_ok kf'
+    | Some (e', s') => mk_acc s' e' ss' true s_ok kf'
+    | None => mk_acc (a_st a) (a_env a) ss' false s_ok kf'
     end
-  else mk_acc (a_st a) (a_env a) ss' clob' false s_ok kf'.
+  else mk_acc (a_st a) (a_env a) ss' false s_ok kf'.
 
 Definition seq_verdict (pfx q : bool) (keys vals : list bytes) (steps : list (iop * iout)) : verdict :=
   let a := fold_left (seq_step q keys vals) steps (acc0 pfx) in
